@@ -2406,7 +2406,7 @@ fn core_word_length(xs: &mut State) -> Xresult {
 
 fn relative_index(len: usize, index: isize) -> Option<usize> {
     if index < 0 {
-        let ridx = index.abs() as usize;
+        let ridx = index.unsigned_abs();
         if ridx > len {
             None
         } else {
@@ -2628,7 +2628,7 @@ fn core_word_str_to_num(xs: &mut State) -> Xresult {
 
 fn slicing_index(idx: isize, len: usize) -> usize {
     if idx < 0 {
-        let ridx = idx.abs() as usize;
+        let ridx = idx.unsigned_abs();
         len - ridx.min(len)
     } else {
         (idx as usize).min(len)
